@@ -560,6 +560,11 @@ func calculateHashes(numLeaves uint64, delHashes []Hash, proof Proof) (hashAndPo
 
 	// Separate index for the hashes in the passed in proof.
 	proofHashIdx := 0
+
+	// The positions have to be processed in strictly increasing order. A
+	// position that isn't greater than the last processed one is a duplicate
+	// or an ancestor of another target.
+	havePrev, prevPos := false, uint64(0)
 	for row := uint8(0); row <= totalRows; {
 		// Grab the next position and hash to process.
 		var proveHash Hash
@@ -574,6 +579,12 @@ func calculateHashes(numLeaves uint64, delHashes []Hash, proof Proof) (hashAndPo
 			proveHash = nextProves.hashes[nextProvesIdx]
 			nextProvesIdx++
 		}
+
+		if havePrev && provePos <= prevPos {
+			return hashAndPos{}, nil, fmt.Errorf("invalid proof. Position %d is a "+
+				"duplicate or an ancestor of another target", provePos)
+		}
+		havePrev, prevPos = true, provePos
 
 		// Keep incrementing the row if the current position is greater
 		// than the max position on this row.
@@ -598,7 +609,12 @@ func calculateHashes(numLeaves uint64, delHashes []Hash, proof Proof) (hashAndPo
 
 		var sibHash Hash
 		sibPresent := sibIdx != -1
+		if sibPresent && !isLeftNiece(provePos) {
+			// rightSib() of a right sibling is itself so the "sibling" is a duplicate.
+			return hashAndPos{}, nil, fmt.Errorf("invalid proof. Position %d is given twice", provePos)
+		}
 		if sibPresent {
+			havePrev, prevPos = true, rightSib(provePos)
 			if sibIdx == 0 {
 				sibHash = toProve.hashes[toProveIdx]
 				toProveIdx++
